@@ -11,6 +11,8 @@ CONSTANTS NJobs, PanicJobs, MaxW, Standby, Batch, QCap, WN, WithExpiry, WithClos
           AtomicExpiry,   \* TRUE: the expiry check and the decrement of workerCount are one critical section (repaired tree)
           QueueGuardedClose, \* TRUE: GetChannel() on a queue closed meanwhile is harmless (repaired queue); FALSE: its wake-up
                           \*   notification panics in the worker, which reports it to the panic handler (pinned tree)
+          LeaverPolls,    \* TRUE: a worker that has decided to leave polls the queue once more (breaks the concurrency bound); FALSE: the code
+          NotifyFirst,    \* TRUE: the exit path wakes the spawn loop before it uncounts the worker (a reordering that strands jobs); FALSE: the code
           NotifyOnExit    \* which worker exits wake the spawn loop: "never" (pinned tree) | "panic" (repaired tree) | "always"
 Jobs == 1..NJobs
 W == 1..WN
@@ -96,13 +98,17 @@ WTake(i) ==
 WExpire(i) ==
   /\ WithExpiry /\ wpc[i] = "select" /\ wpc' = [wpc EXCEPT ![i] = "expired"]
   /\ UNCHANGED <<queue, qClosed, tok, closed, wcount, wbusy, spc, sexp, sleft, wjob, wisbusy, wpanic, wleft, subpc, sidx, sres, ran, handler, maxrun, xpc>>
+\* LeaverPolls = TRUE is the variant in which a worker that has decided to leave (already uncounted) polls the queue once more
+\* and runs what it finds: the spawn loop refills to the maximum meanwhile, so more than MaxW jobs can be executing.
 WExpiryCheck(i) ==
   /\ wpc[i] = "expired"
   /\ IF wcount > Standby \/ wcount > MaxW
-       THEN /\ wpc' = [wpc EXCEPT ![i] = "exit"]
+       THEN /\ IF LeaverPolls /\ queue # <<>>
+                 THEN wpc' = [wpc EXCEPT ![i] = "got"] /\ wjob' = [wjob EXCEPT ![i] = Head(queue)] /\ queue' = Tail(queue)
+                 ELSE wpc' = [wpc EXCEPT ![i] = "exit"] /\ UNCHANGED <<wjob, queue>>
             /\ IF AtomicExpiry THEN wcount' = wcount - 1 /\ wleft' = [wleft EXCEPT ![i] = TRUE] ELSE UNCHANGED <<wcount, wleft>>
-       ELSE wpc' = [wpc EXCEPT ![i] = "loop"] /\ UNCHANGED <<wcount, wleft>>
-  /\ UNCHANGED <<queue, qClosed, tok, closed, wbusy, spc, sexp, sleft, wjob, wisbusy, wpanic, subpc, sidx, sres, ran, handler, maxrun, xpc>>
+       ELSE wpc' = [wpc EXCEPT ![i] = "loop"] /\ UNCHANGED <<wcount, wleft, wjob, queue>>
+  /\ UNCHANGED <<qClosed, tok, closed, wbusy, spc, sexp, sleft, wisbusy, wpanic, subpc, sidx, sres, ran, handler, maxrun, xpc>>
 WStart(i) ==
   /\ wpc[i] = "got" /\ wbusy' = wbusy + 1 /\ wisbusy' = [wisbusy EXCEPT ![i] = TRUE]
   /\ wpc' = [wpc EXCEPT ![i] = "running"]
@@ -115,18 +121,36 @@ WEnd(i) ==
        THEN /\ wpanic' = [wpanic EXCEPT ![i] = TRUE] /\ wpc' = [wpc EXCEPT ![i] = "exit"]
             /\ UNCHANGED <<wbusy, wisbusy>>
        ELSE /\ wbusy' = wbusy - 1 /\ wisbusy' = [wisbusy EXCEPT ![i] = FALSE]
-            /\ wpc' = [wpc EXCEPT ![i] = "loop"] /\ UNCHANGED wpanic
+            /\ wpc' = [wpc EXCEPT ![i] = IF wleft[i] THEN "exit" ELSE "loop"] /\ UNCHANGED wpanic      \* (a leaver that ran one more job leaves now)
   /\ UNCHANGED <<queue, qClosed, tok, closed, wcount, spc, sexp, sleft, wjob, wleft, subpc, sidx, sres, ran, handler, maxrun, xpc>>
+\* the deferred exit path, two steps as in the code: recover + panic handler, then (under the lock) the decrements, then - after
+\* the unlock - the wake-up of the spawn loop for a worker that died from a panic.  NotifyFirst = TRUE is the variant that wakes
+\* the spawn loop BEFORE the worker is uncounted: the spawn loop then still sees the dying worker and spawns nothing.
 WExit(i) ==
   /\ wpc[i] = "exit"
   /\ handler' = IF wpanic[i] THEN handler + 1 ELSE handler
-  /\ wcount' = IF wleft[i] THEN wcount ELSE wcount - 1
-  /\ wleft' = [wleft EXCEPT ![i] = FALSE]
-  /\ wbusy' = IF wisbusy[i] THEN wbusy - 1 ELSE wbusy
-  /\ wisbusy' = [wisbusy EXCEPT ![i] = FALSE] /\ wpanic' = [wpanic EXCEPT ![i] = FALSE]
+  /\ IF NotifyFirst
+       THEN /\ tok' = IF NotifyOnExit = "always" \/ (NotifyOnExit = "panic" /\ wpanic[i]) THEN 1 ELSE tok
+            /\ UNCHANGED <<wcount, wleft, wbusy, wisbusy>>
+       ELSE /\ wcount' = IF wleft[i] THEN wcount ELSE wcount - 1
+            /\ wleft' = [wleft EXCEPT ![i] = TRUE]                      \* uncounted from here on
+            /\ wbusy' = IF wisbusy[i] THEN wbusy - 1 ELSE wbusy
+            /\ wisbusy' = [wisbusy EXCEPT ![i] = FALSE]
+            /\ UNCHANGED tok
+  /\ wpc' = [wpc EXCEPT ![i] = "exit2"]
+  /\ UNCHANGED <<queue, qClosed, closed, spc, sexp, sleft, wjob, wpanic, subpc, sidx, sres, ran, maxrun, xpc>>
+WExit2(i) ==
+  /\ wpc[i] = "exit2"
+  /\ IF NotifyFirst
+       THEN /\ wcount' = IF wleft[i] THEN wcount ELSE wcount - 1
+            /\ wbusy' = IF wisbusy[i] THEN wbusy - 1 ELSE wbusy
+            /\ wisbusy' = [wisbusy EXCEPT ![i] = FALSE]
+            /\ UNCHANGED tok
+       ELSE /\ tok' = IF NotifyOnExit = "always" \/ (NotifyOnExit = "panic" /\ wpanic[i]) THEN 1 ELSE tok
+            /\ UNCHANGED <<wcount, wbusy, wisbusy>>
+  /\ wleft' = [wleft EXCEPT ![i] = FALSE] /\ wpanic' = [wpanic EXCEPT ![i] = FALSE]
   /\ wpc' = [wpc EXCEPT ![i] = "absent"]
-  /\ tok' = IF NotifyOnExit = "always" \/ (NotifyOnExit = "panic" /\ wpanic[i]) THEN 1 ELSE tok
-  /\ UNCHANGED <<queue, qClosed, closed, spc, sexp, sleft, wjob, subpc, sidx, sres, ran, maxrun, xpc>>
+  /\ UNCHANGED <<queue, qClosed, closed, spc, sexp, sleft, wjob, subpc, sidx, sres, ran, handler, maxrun, xpc>>
 
 \* ------------------------------------------------------------------ closer
 CloseFlag == /\ xpc = "start" /\ closed' = TRUE /\ xpc' = "flagged"
@@ -136,7 +160,7 @@ CloseQueue == /\ xpc = "flagged" /\ qClosed' = TRUE /\ xpc' = "done"
 
 Sub == SubCheck \/ SubOffer \/ SubNotify
 SpawnLoop == SpawnWake \/ SpawnDecide \/ SpawnGen
-WorkerStep(i) == WLoop(i) \/ WTake(i) \/ WExpire(i) \/ WExpiryCheck(i) \/ WStart(i) \/ WEnd(i) \/ WExit(i)
+WorkerStep(i) == WLoop(i) \/ WTake(i) \/ WExpire(i) \/ WExpiryCheck(i) \/ WStart(i) \/ WEnd(i) \/ WExit(i) \/ WExit2(i)
 Next == Sub \/ SpawnLoop \/ (\E i \in W : WorkerStep(i)) \/ CloseFlag \/ CloseQueue
 Spec == Init /\ [][Next]_vars
 FairSpec == Spec /\ WF_vars(Sub) /\ WF_vars(SpawnLoop)
